@@ -125,6 +125,25 @@ def packRegVvvvv (reg vvvvv : Nat) : BitVec 32 := BitVec.ofNat 32 (reg + vvvvv *
 def r32 (n : Nat) : BitVec 32 := BitVec.ofNat 32 n
 def b2w (b : Bool) : BitVec 32 := if b then 1#32 else 0#32
 
+/-- `EmitX86OpMovAbs`: segment override, then `EmitX86Op` with the address as an immediate of the native register size -/
+def emitMovAbs (c : Ctx) (opcode options : BitVec 32) (m : Mem) : Except Err (List Byte) := do
+  let body ← emitX86Op opcode options m.offset (if c.mode64 then 8 else 4)
+  pure (segmentPrefix m.seg ++ body)
+
+/-- `x86_should_use_movabs` (`size` = register size; the writer is at `c.off`) -/
+def shouldUseMovabs (c : Ctx) (size : Nat) (options : BitVec 32) (m : Mem) : Bool :=
+  let modOpt := (options &&& (oModMR ||| oModRM)) != 0#32
+  if !c.mode64 then !modOpt
+  else if m.addrType == 2 || modOpt then false
+  else
+    let relOrSmall : Bool :=
+      match (if m.addrType == 0 && m.seg == 0 then c.base else none) with
+      | some base =>
+        let isz : Nat := (if m.seg != 0 then 1 else 0) + (if size == 2 then 1 else 0) + (if size == 8 || (options &&& oRex) != 0#32 then 1 else 0) + 1 + 8
+        isInt32of64 (m.offset - (base + BitVec.ofNat 64 (c.off + isz)))
+      | none => isInt32of64 m.offset
+    if relOrSmall then false else m.offset.toNat > 0xFFFFFFFF
+
 /-- the encoding switch; `pfx` are the LOCK/REP bytes already written, `options` already contains the forced options -/
 def dispatch (c : Ctx) (r : Row) (options : BitVec 32) (o0 o1 o2 o3 : Op) : Except Err (List Byte) :=
   let opcode := r.mainOp
@@ -393,13 +412,18 @@ def dispatch (c : Ctx) (r : Row) (options : BitVec 32) (o0 o1 o2 o3 : Op) : Exce
     else if isign3 == RM then
       if !o0.isGp then .error .unmodelled else
       let m := memOf o1
-      if o0.id == 0 && m.baseType == 0 && m.indexType == 0 then .error .unmodelled else
+      -- `mov ah, [abs]` takes the accumulator path too (AH has the id of AL): a defect (fixes/C01-15.patch), not modelled
+      if o0.id == 0 && m.baseType == 0 && m.indexType == 0 && o0.isGp8Hi then .error .unmodelled else
+      if o0.id == 0 && m.baseType == 0 && m.indexType == 0 && shouldUseMovabs c o0.rmSize options m then
+        emitMovAbs c (addArithBySize 0#32 o0.rmSize + 0xA0#32) options m else
       let (opt1, rg) := if o0.rmSize == 1 then fixupGpb options o0 (r32 o0.id) else (options, r32 o0.id)
       emitX86M c (addArithBySize 0#32 o0.rmSize + 0x8A#32) opt1 rg m 0 0
     else if isign3 == MR then
       if !o1.isGp then .error .unmodelled else
       let m := memOf o0
-      if o1.id == 0 && m.baseType == 0 && m.indexType == 0 then .error .unmodelled else
+      if o1.id == 0 && m.baseType == 0 && m.indexType == 0 && o1.isGp8Hi then .error .unmodelled else
+      if o1.id == 0 && m.baseType == 0 && m.indexType == 0 && shouldUseMovabs c o1.rmSize options m then
+        emitMovAbs c (addArithBySize 0#32 o1.rmSize + 0xA2#32) options m else
       let (opt1, rg) := if o1.rmSize == 1 then fixupGpb options o1 (r32 o1.id) else (options, r32 o1.id)
       emitX86M c (addArithBySize 0#32 o1.rmSize + 0x88#32) opt1 rg m 0 0
     else if isign3 == 1 + 4 * 8 then                                              -- Reg, Imm
@@ -415,6 +439,21 @@ def dispatch (c : Ctx) (r : Row) (options : BitVec 32) (o0 o1 o2 o3 : Op) : Exce
       let msz := o0.rmSize
       if msz == 0 then .error .ambiguousOperandSize else
       emitX86M c (addPrefixBySize (if msz != 1 then 0xC7#32 else 0xC6#32) msz) options 0#32 (memOf o0) o1.immVal (min msz 4)
+    else .error .unmodelled
+  | 0x2d =>                                                                       -- X86Movabs (moffs forms; `movabs r64, imm64` not modelled)
+    if isign3 == RM then
+      let m := memOf o1
+      if !o0.isGp || o0.id != 0 then .error .invalidInstruction
+      else if o0.isGp8Hi then .error .unmodelled                                   -- (defect, fixes/C01-15.patch)
+      else if m.baseType != 0 || m.indexType != 0 then .error .invalidAddress
+      else if m.addrType == 2 then .error .invalidAddress
+      else emitMovAbs c (addArithBySize 0xA0#32 o0.rmSize) options m
+    else if isign3 == MR then
+      let m := memOf o0
+      if !o1.isGp || o1.id != 0 then .error .invalidInstruction
+      else if o1.isGp8Hi then .error .unmodelled
+      else if m.baseType != 0 || m.indexType != 0 then .error .invalidAddress
+      else emitMovAbs c (addArithBySize 0xA2#32 o1.rmSize) options m
     else .error .unmodelled
   | 0x0e =>                                                                       -- X86M_Only
     if isign3 == 2 then emitX86M c opcode options opReg0 (memOf o0) 0 0 else .error .invalidInstruction
